@@ -200,8 +200,42 @@ fn tensor_manual(req: &Value) -> Value {
     json!({"disk_len": disk_len, "cut": cut, "step_errors": errs, "replay": out})
 }
 
+/// C02 L1: a durable store performs put_durable (and, for delete, then delete_durable) on a key of the given class whose
+/// value carries an embedding; the records in the log afterwards, in order, and whether the call succeeded.
+fn durable_op(req: &Value) -> Value {
+    use tensor_store::{TensorData, TensorStore, TensorValue, ScalarValue};
+    let dir = tmpdir();
+    let path = dir.join("store.wal");
+    let key = match req["key_class"].as_str().unwrap_or("Metadata") {
+        "Embedding" => "emb:k1", "Graph" => "node:k1", "Table" => "table:k1", "Cache" => "_cache:k1", _ => "k1",
+    };
+    let store = match TensorStore::open_durable(&path, WalConfig::default()) { Ok(s) => s, Err(e) => return json!({"error": e.to_string()}) };
+    let mut d = TensorData::new();
+    d.set("f", TensorValue::Scalar(ScalarValue::Int(1)));
+    d.set("_embedding", TensorValue::Vector(vec![1.0, 2.0]));
+    let put_ok = store.put_durable(key, d).is_ok();
+    let n_after_put = TensorWal::open(&path, WalConfig::default()).ok().and_then(|w| w.replay().ok()).map_or(0, |e| e.len());
+    let mut del_ok = None;
+    if req["router_op"].as_str() == Some("delete_durable") {
+        del_ok = Some(store.delete_durable(key).is_ok());
+    }
+    let kinds: Vec<String> = TensorWal::open(&path, WalConfig::default()).ok().and_then(|w| w.replay().ok()).unwrap_or_default().iter().map(|e| match e {
+        WalEntry::MetadataSet { key, .. } => format!("MetadataSet:{key}"),
+        WalEntry::MetadataDelete { key } => format!("MetadataDelete:{key}"),
+        WalEntry::EmbeddingSet { .. } => "EmbeddingSet".into(),
+        WalEntry::EmbeddingDelete { .. } => "EmbeddingDelete".into(),
+        WalEntry::EntityCreate { key, .. } => format!("EntityCreate:{key}"),
+        WalEntry::EntityRemove { key } => format!("EntityRemove:{key}"),
+        _ => "other".into(),
+    }).collect();
+    drop(store);
+    let _ = std::fs::remove_dir_all(&dir);
+    json!({"key": key, "put_ok": put_ok, "delete_ok": del_ok, "records": kinds, "records_after_put": n_after_put})
+}
+
 pub fn handle(op: &str, req: &Value) -> Option<Value> {
     Some(match op {
+        "durable_op" => durable_op(req),
         "wal_manual" => tensor_manual(req),
         "wal_torn" => match req["wal"].as_str().unwrap_or("") {
             "raft" => raft_torn(req),
